@@ -197,7 +197,8 @@ class HedValidator:
                                                                include_groups=1)
         all_definition_groups = [group for sub_group in definition_groups for group in sub_group.get_all_groups()]
         for group in hed_string_obj.get_all_groups():
-            is_definition = group in all_definition_groups
+            # The very group, not one that merely has the same contents.
+            is_definition = any(group is definition_group for definition_group in all_definition_groups)
             for hed_tag in group.tags():
                 if not self._definitions_allowed and hed_tag.short_base_tag == DefTagNames.DEFINITION_KEY:
                     validation_issues += error_reporter.ErrorHandler.format_error(
